@@ -18,7 +18,7 @@ MANIFEST = {
             'RFC 9171 reader/writer, z3. The real clock supplies "now".',
     'ref': '5 C11'}
 BOUNDS = {'quick': dict(blocks='prev-node {0,1} x hop-count {0,1,2} x age {0,1} x unknown {0,1}', crc='all blocks type 0, 1 or 2'),
-          'thorough': dict(blocks='as quick', crc='mixed types')}
+          'thorough': dict(blocks='as quick, every case three times: payload length and sequence number | the first two block numbers | received age and sequence number over all CBOR head classes', crc='as quick')}
 ASSUMPTIONS = [
     'creation time is in the past (age is non-negative); EIDs fixed text',
     'quick: sequence number, block numbers and received age below 24, payload below 256 octets, lifetime and time in [2^32,..) (one CBOR head class each)',
@@ -51,6 +51,9 @@ def cases(tier):
     out.append(dict(prev=0, hops=1, age=0, unk=0, crc=0, flags=0x10000, rep='real'))
     out.append(dict(prev=0, hops=1, age=0, unk=0, crc=1, warmup=1))
     out.append(dict(prev=1, hops=0, age=1, unk=1, crc=2, warmup=1))
+    if tier != 'quick':
+        # at most two kinds of field range over all CBOR head classes at once
+        out = [dict(x, wide=w) for x in out for w in ('P+seq', 'nums', 'age+seq')]
     return out
 
 
@@ -70,11 +73,11 @@ def harness(case, tier):
         w.run_idle(20)
         c.prove(len(w.sent) == 1, 'warmup-forwarded', detail=len(w.sent))
         del w.sent[:]
-    wide = tier == 'thorough'
-    P = c.sym_int('P', 0, 2 ** 32 if wide else 255, size=True)
+    wset = set(case.get('wide', '').split('+'))
+    P = c.sym_int('P', 0, 2 ** 32 if 'P' in wset else 255, size=True)
     payload = c.sym_blob('payload', P)
     ts = c.sym_int('dtntime', 2 ** 32, 2 ** 39)    # before "now" (2^39 ms is the year 2017 in DTN time)
-    seq = c.sym_int('seqno', 0, 2 ** 64 - 1 if wide else 23)
+    seq = c.sym_int('seqno', 0, 2 ** 64 - 1 if 'seq' in wset else 23)
     life = c.sym_int('lifetime', 2 ** 32, 2 ** 64 - 1)
     if case.get('ts0'):
         ts = 0
@@ -87,7 +90,7 @@ def harness(case, tier):
     nums = []
 
     def num(name):
-        n = c.sym_int(name, 2, 2 ** 32 if wide else 23)
+        n = c.sym_int(name, 2, 2 ** 32 if ('nums' in wset and len(nums) < 2) else 23)
         for m in nums:
             c.assume(n != m)
         nums.append(n)
@@ -101,7 +104,7 @@ def harness(case, tier):
         hop_in.append((lim, cnt))
         blocks.append(dict(type=10, num=num('n_hop%d' % i), flags=0, crc_type=ct, data=rfc9171.enc([lim, cnt])))
     for i in range(case['age']):
-        blocks.append(dict(type=7, num=num('n_age%d' % i), flags=0, crc_type=ct, data=rfc9171.enc(c.sym_int('age_in%d' % i, 0, 2 ** 32 if wide else 23))))
+        blocks.append(dict(type=7, num=num('n_age%d' % i), flags=0, crc_type=ct, data=rfc9171.enc(c.sym_int('age_in%d' % i, 0, 2 ** 32 if 'age' in wset else 23))))
     unk_data = None
     if case['unk']:
         unk_data = c.sym_bytes('unk', 3)
